@@ -510,6 +510,9 @@ func C05(ctx *core.Ctx) error {
 		if err := json.Unmarshal(r.Output, &o); err != nil {
 			return core.Inconcl("bad outcome json: %v", err)
 		}
+		if ctx.Replay != "" {
+			fmt.Println("outcome:", string(r.Output))
+		}
 		nontrivial := o.Changed || fc.WrongSecret || fc.DupParams > 0
 		cov.Case(fc.ID(), nontrivial)
 		if o.Applied {
